@@ -81,3 +81,9 @@ claim("C10", "other",
       "Decides the adapter's tables and provenance on every path: method strings per request type, routing of each method to its wrapper and handler interface methods, all handler-visible paths produced by cleanPathWithBase from a cleaned start directory (two documented verbatim exceptions), flags/attrs copied from the right packet fields, at most one handler invocation per request, error categories and SFTP codes preserved for the standard error shapes.",
       "Trusted: path.Clean/Join semantics; oracle tables from request-interfaces.go / request-readme.md (DESIGN.md Appendix A.6).",
       "DESIGN.md section 4, C10")
+
+claim("C17", "other",
+      "table extraction from type-checked syntax with constant folding (mode tables, flag->call tables), exhaustive comparison with the POSIX/os oracle and mutual-inverse check, value provenance of reported attributes",
+      "Decides, exhaustively over the extracted tables, that toFileMode/fromFileMode are the POSIX<->os mapping and mutually inverse on all seven type constants, the three special bits and the permission mask; that reported attributes come from the FileInfo's own Size/Mode/ModTime/owner; that both set-attribute handlers apply exactly the four flag->call pairs with the right arguments and agree; that client setters pair flag and payload in wire order; that the long name is built from the same entry.",
+      "What the host file system reports is out of scope; oracle: POSIX S_IF* and os.Mode* (DESIGN.md Appendix A.4).",
+      "DESIGN.md section 4, C17")
